@@ -43,16 +43,16 @@ def long_hit(enc, addr, hitmap):
     return bytes([v >> 8, v & 0xFF, hitmap & 0x7F])
 
 
-def random_hits(rng, nasty=False):
+def random_hits(rng, nasty=False, many=False):
     """Random region/hit content. nasty: second/third bytes chosen among values that look like
     chip headers / trailers / empty frames / APEs / 0xFF when (wrongly) interpreted as word starts."""
     regions = []
-    nreg = rng.choice([0, 1, 1, 2, 3, 5])
+    nreg = rng.choice([0, 1, 1, 2, 3, 5]) if not many else rng.choice([24, 32])
     rid = 0
     for _ in range(nreg):
-        rid = min(31, rid + rng.randint(0, 6))
+        rid = min(31, rid + (rng.randint(0, 6) if not many else 0))
         hits = []
-        for _ in range(rng.choice([0, 1, 2, 4, 9])):
+        for _ in range(rng.choice([0, 1, 2, 4, 9]) if not many else rng.choice([20, 45, 70])):
             if nasty:
                 lo = rng.choice([0xA0, 0xA5, 0xAF, 0xB0, 0xB8, 0xBF, 0xE0, 0xE7, 0xEF, 0xF4, 0xF5, 0xFA, 0xFF, 0xC0,
                                  0xDF, 0xF0, 0xF1, 0x00])
